@@ -25,8 +25,79 @@ class StmtMixin:
                     r.st.undecided = str(e)
                     self.undecided_paths.append((str(e), getattr(s, "lineno", 0)))
                     nxt.append(Res(r.st, None, "undecided"))
-            cur = nxt
+            cur = self.join(nxt)
         return cur
+
+    # ------------------------------------------------------------------ state merging at join points
+    def join(self, results):
+        """merge the states of all normally-continuing results into one (ite over heap / locals,
+        guarded effects); other outcomes are kept as they are"""
+        normal = [r for r in results if r.ok and not r.st.undecided]
+        if len(normal) < 2 or not self.merging:
+            return results
+        merged = self.merge_states([r.st for r in normal])
+        if merged is None:
+            return results
+        return [Res(merged)] + [r for r in results if not (r.ok and not r.st.undecided)]
+
+    def merge_states(self, sts):
+        # common prefix of the path conditions
+        L = 0
+        m = min(len(s.pc) for s in sts)
+        while L < m and all(s.pc[L].get_id() == sts[0].pc[L].get_id() for s in sts[1:]):
+            L += 1
+        # one fresh boolean per incoming branch: b_i -> (facts and conditions gathered on branch i)
+        conds = [z3.Bool(fresh_name("br")) for _ in sts]
+        out = State()
+        out.pc = list(sts[0].pc[:L]) + [z3.Or(*conds), z3.AtMost(*conds, 1)]
+        for b, s_ in zip(conds, sts):
+            for f in s_.pc[L:]:
+                out.pc.append(z3.Implies(b, f))
+
+        def ite(terms):
+            if all(t.eq(terms[0]) for t in terms[1:]):
+                return terms[0]
+            r = terms[-1]
+            for c, t in zip(reversed(conds[:-1]), reversed(terms[:-1])):
+                r = z3.If(c, t, r)
+            return r
+        for f in set().union(*[set(s.heap) for s in sts]):
+            arrs = [s.heap.get(f) if f in s.heap else z3.Const("H0_" + f, field_sort(f)) for s in sts]
+            out.heap[f] = ite(arrs)
+        names = set(sts[0].env)
+        for s in sts[1:]:
+            names &= set(s.env)
+        for nm in names:
+            vals = [s.env[nm] for s in sts]
+            if all(isinstance(v, V) for v in vals):
+                tys = {v.ty for v in vals}
+                srcs = [v.src for v in vals]
+                out.env[nm] = V(ite([v.t for v in vals]), vals[0].ty if len(tys) == 1 else None,
+                                src=srcs[0] if all(x is srcs[0] for x in srcs) else None)
+            elif all(v is vals[0] for v in vals):
+                out.env[nm] = vals[0]
+        for nm in set().union(*[set(s.ghost) for s in sts]):
+            if all(nm in s.ghost for s in sts):
+                vals = [s.ghost[nm] for s in sts]
+                out.ghost[nm] = V(ite([v.t for v in vals]), vals[0].ty)
+        # effect trace: common prefix, then the remainders guarded by the branch conditions
+        T = 0
+        mt = min(len(s.trace) for s in sts)
+        while T < mt and all(s.trace[T] is sts[0].trace[T] for s in sts[1:]):
+            T += 1
+        out.trace = list(sts[0].trace[:T])
+        for c, s in zip(conds, sts):
+            out.trace += [e.guarded(c) for e in s.trace[T:]]
+        out.reads = set().union(*[s.reads for s in sts])
+        seen = set()
+        for s in sts:
+            for w in s.writes:
+                k = (w[0], w[1].get_id() if z3.is_expr(w[1]) else str(w[1]))
+                if k not in seen:
+                    seen.add(k); out.writes.append(w)
+        out.front = ite([s.front for s in sts])
+        out.nalloc = max(s.nalloc for s in sts)
+        return out
 
     def ex(self, st, s):
         m = getattr(self, "ex_" + type(s).__name__, None)
@@ -203,6 +274,9 @@ class StmtMixin:
                     self.assume_type(tmp, V(val.t, ft))
                     if tmp.pc:
                         self.oblige(f"type-safety:field {ty}.{target.attr}: {ft}@L{lineno}", "type-safety", z3.And(*tmp.pc), s2, lineno)
+                if target.attr in self.track_writes and not self.spec_depth:
+                    s2.trace.append(Effect("write:" + target.attr, [obj, val], lineno, s2.copy()))
+                    self.on_effect(s2, s2.trace[-1])        # guard evaluated in the state before the write
                 s2.write(target.attr, Val.r(obj.t), val.t)
                 out.append(Res(s2))
             return out
@@ -429,7 +503,7 @@ class StmtMixin:
         from .solve import has_quantifier
         self._loop_effects = set()
         for r in outs:
-            for e_ in r.st.trace[len(st.trace):]:
+            for e_ in [x for x in r.st.trace if not any(x.orig is y.orig for y in st.trace)]:
                 self._loop_effects.add(e_.name)
                 self._loop_effects |= set(e_.inner)
         for r in outs:
@@ -565,7 +639,10 @@ class StmtMixin:
 
     def run_loop(self, st0, s, it):
         key = self.loop_key(s)
-        lc = self.loop_contract(key)
+        okey = f"{key}#{self.loop_ordinals.get(id(s), 1)}"
+        lc = self.loop_contract(okey) or self.loop_contract(key)
+        if self.loop_contract(okey):
+            key = okey
         invs = lc.get("invariants", [])
         n = it.length
         st0.assume(n >= 0)
@@ -616,10 +693,19 @@ class StmtMixin:
         for e, f in inv_terms(sh, i):
             sh.assume(f)
         breaks = []
+        ntrace = len(sh.trace)
         for b in body(sh):
             if b.kind in ("normal", "continue"):
                 for e, f in inv_terms(b.st, i + 1):
                     self.oblige(f"inv-pres[{key}]: {e}", "inv-pres", f, b.st, s.lineno)
+                for e in lc.get("body_post", []):
+                    from .registry import clause_text, clause_active
+                    if clause_active(e, self.prop):
+                        view = b.st.copy(); view.trace = b.st.trace[ntrace:]     # effects of this iteration only
+                        binds = {k: v for k, v in b.st.env.items() if isinstance(v, V)}
+                        self.oblige(f"loop-body[{key}]: {clause_text(e)}", "inv-pres", self.spec(view, st0, clause_text(e), binds), b.st, s.lineno)
+            elif b.kind == "break" and lc.get("no_break"):
+                self.oblige(f"loop-body[{key}]: no iteration is skipped by break", "inv-pres", z3.BoolVal(False), b.st, s.lineno)
                 if it.src is not None and not lc.get("mutates_iterated"):
                     self.oblige(f"loop-frame[{key}]: iterated collection unchanged", "loop-frame",
                                 self.same_collection(b.st, st0, it.src), b.st, s.lineno)
